@@ -214,7 +214,8 @@ def decorate(body, deco):
 
 DECOS = ['plain', 'hyphenated', 'braced', 'urn', 'urn-plain', 'braced-plain']
 DEFECTS = ['none', '0x-prefix', 'non-hex', 'underscore', 'leading-space', 'trailing-space',
-           'plus', 'trailing-newline', 'inner-tab']
+           'plus', 'trailing-newline', 'inner-tab', 'hyphen-for-digit', 'hyphen-for-last-digit',
+           'two-hyphens-for-digits']
 
 
 def _uuid_case(vals, acc):
@@ -237,11 +238,19 @@ def _uuid_case(vals, acc):
         body = body[:-1] + '\n'
     elif defect == 'inner-tab':
         body = body[:16] + '\t' + body[17:]
+    elif defect == 'hyphen-for-digit':
+        body = body[:3] + '-' + body[4:]
+    elif defect == 'hyphen-for-last-digit':
+        body = body[:-1] + '-'
+    elif defect == 'two-hyphens-for-digits':
+        body = '-' + body[1:10] + '-' + body[11:]
     text = decorate(body, deco)
     if upper:
         text = text.upper() if deco in ('plain', 'hyphenated', 'braced', 'braced-plain') else \
             text[:9] + text[9:].upper()
-    want = (n == 32 and defect == 'none')
+    # hyphens are decoration: what counts is the number of hex digits left
+    lost = {'hyphen-for-digit': 1, 'hyphen-for-last-digit': 1, 'two-hyphens-for-digits': 2}
+    want = (defect == 'none' and n == 32) or (defect in lost and n - lost[defect] == 32)
     acc.nontrivial(text)
     try:
         got = uuidutils.is_uuid_like(text)
